@@ -339,7 +339,7 @@ Definition dec_ok (n : dec) : bool :=
   match d_frac n with Some f => all_digits f | None => true end.
 Definition has_field (c : sclause) : bool := match s_field c with [] => false | _ => true end.
 
-Definition kind_ok (c : sclause) : bool :=
+Definition skind_ok (c : sclause) : bool :=
   match s_kind c with
   | KMatch w => word_ok w && negb (regexp_shaped w) && negb (has_wild w)
   | KFuzzy w n => word_ok w && match n with [] => true | [d] => is_digit d | _ => false end
@@ -353,7 +353,7 @@ Definition kind_ok (c : sclause) : bool :=
 
 Definition clause_ok (c : sclause) : bool :=
   (match s_field c with [] => true | f => word_ok f end) &&
-  kind_ok c &&
+  skind_ok c &&
   match s_boost c with Some b => dec_ok b | None => true end.
 
 Definition clauses_ok (cs : list sclause) : bool := forallb clause_ok cs.
